@@ -33,6 +33,7 @@ VECTOR_DATA = {"operator[]", "at", "data", "front", "back", "begin", "end", "cbe
 LOOPS = {"ForStmt", "WhileStmt", "DoStmt", "CXXForRangeStmt"}
 CONDS = {"IfStmt", "SwitchStmt", "ConditionalOperator", "BinaryConditionalOperator", "CXXTryStmt"}
 GUARDS = ("lock_guard", "scoped_lock", "unique_lock")
+ATOMIC_RE = __import__("re").compile(r"^\s*(const\s+|volatile\s+|mutable\s+)*(std::)?(atomic<|atomic_(?:bool|flag|char|schar|uchar|short|ushort|int|uint|long|ulong|llong|ullong|size_t|ptrdiff_t|intptr_t|uintptr_t|int\d+_t|uint\d+_t)\b)")
 
 
 def mentions(n, name):
@@ -86,13 +87,17 @@ class ClassInfo:
         self.methods = {}    # id -> node
         self.by_name = {}    # name -> [ids]
         self.public = []     # ids of public methods with bodies
+        self.atomic = set()  # fields whose (desugared) type is a std::atomic: their accesses cannot race
         access = "private"
         for m in inner(spec):
             k = m.get("kind")
             if k == "AccessSpecDecl":
                 access = m.get("access", access)
             elif k == "FieldDecl":
-                self.fields[m["name"]] = m.get("type", {}).get("qualType", "")
+                ty = m.get("type", {})
+                self.fields[m["name"]] = ty.get("qualType", "")
+                if ATOMIC_RE.search(ty.get("desugaredQualType") or ty.get("qualType", "")):
+                    self.atomic.add(m["name"])
             elif k == "CXXMethodDecl":
                 self.add(m, access)
             elif k == "FunctionTemplateDecl":
@@ -109,12 +114,57 @@ class ClassInfo:
             self.public.append(m["id"])
 
 
+SYNC_ALGOS = {"for_each", "for_each_n", "find_if", "find_if_not", "any_of", "all_of", "none_of", "count_if", "remove_if",
+              "transform", "accumulate", "generate", "generate_n", "sort", "stable_sort", "erase_if", "copy_if", "partition",
+              "stable_partition", "min_element", "max_element", "lower_bound", "upper_bound", "binary_search", "equal_range",
+              "replace_if", "unique", "mismatch", "equal", "search", "adjacent_find", "is_sorted", "nth_element", "partial_sort",
+              "reduce", "inner_product", "invoke", "apply", "find_first_of", "remove_copy_if", "partition_point"}
+WRAPPERS = ("ImplicitCastExpr", "ParenExpr", "MaterializeTemporaryExpr", "ExprWithCleanups", "CXXBindTemporaryExpr",
+            "CXXFunctionalCastExpr", "CXXStaticCastExpr")
+
+
+def find_lambda(n):
+    """the LambdaExpr an argument / initialiser denotes, looking through temporaries, casts and copy construction"""
+    while True:
+        k = n.get("kind")
+        if k == "LambdaExpr":
+            return n
+        kids = inner(n)
+        if k in WRAPPERS and kids:
+            n = kids[-1] if k in ("CXXFunctionalCastExpr", "CXXStaticCastExpr") else kids[0]
+            continue
+        if k == "CXXConstructExpr" and len(kids) == 1:
+            n = kids[0]
+            continue
+        return None
+
+
+def unwrap_forward(n):
+    """f, std::forward<F>(f), std::move(f), (f) -> the DeclRefExpr"""
+    while True:
+        n = strip_casts(n)
+        if n.get("kind") == "CallExpr":
+            kids = inner(n)
+            callee = strip_casts(kids[0]) if kids else {}
+            if callee.get("referencedDecl", {}).get("name") in ("forward", "move") and len(kids) == 2:
+                n = kids[1]
+                continue
+        return n
+
+
+def lambda_body(lam):
+    bodies = [c for c in inner(lam) if c.get("kind") == "CompoundStmt"]
+    return bodies[-1] if bodies else None
+
+
 class Walker:
     def __init__(self, ci):
         self.ci = ci
         self.stack = []
         self.cond = 0        # number of if / switch / ?: / try constructs around the node being visited
         self.guards = {}     # VarDecl id of a guard on m_lock -> does it hold the lock (straight-line reading)
+        self.lam = {}        # ParmVarDecl / VarDecl id -> LambdaExpr bound to it (callable passed to a helper of the same object)
+        self.lam_stack = []
 
     def guard_decl(self, v, out):
         """v: VarDecl of a guard type. Returns True if it was understood (tokens appended)."""
@@ -210,9 +260,82 @@ class Walker:
             return
         out.append((mode, name))
 
+    def inline_lambda(self, lam, out, parents):
+        body = lambda_body(lam)
+        if body is None or lam.get("id", id(lam)) in self.lam_stack:
+            out.append(("unknown", "lambda"))
+            return
+        self.lam_stack.append(lam.get("id", id(lam)))
+        self.visit(body, out, parents)
+        self.lam_stack.pop()
+
+    def resolve_member(self, callee):
+        """callee: MemberExpr on this naming a member function of the same object -> method id or None"""
+        name = callee.get("name", "")
+        if name not in self.ci.by_name:
+            return None
+        ref = callee.get("referencedMemberDecl")
+        if ref in self.ci.methods:
+            return ref
+        if len(self.ci.by_name[name]) == 1:
+            return self.ci.by_name[name][0]
+        return None
+
     def visit(self, n, out, parents):
         parent = parents[-1] if parents else None
         k = n.get("kind")
+        if k == "CXXMemberCallExpr":
+            # a helper of the same object that is handed a lambda (with_lock([&] { ... })): bind the callable to the
+            # helper's parameter and inline; the lambda's body is inlined where the helper calls the parameter
+            kids = inner(n)
+            callee = strip_casts(kids[0]) if kids else {}
+            if (callee.get("kind") == "MemberExpr" and inner(callee) and is_this(inner(callee)[0])
+                    and any(find_lambda(a) is not None for a in kids[1:])):
+                target = self.resolve_member(callee)
+                if target is not None:
+                    params = [c for c in inner(self.ci.methods[target]) if c.get("kind") == "ParmVarDecl"]
+                    for i, a in enumerate(kids[1:]):
+                        lam = find_lambda(a)
+                        if lam is not None and i < len(params):
+                            self.lam[params[i]["id"]] = lam
+                        else:
+                            self.visit(a, out, parents + [n])
+                    out.extend(self.method(target))
+                    return
+        if k == "CXXOperatorCallExpr":
+            kids = inner(n)
+            op = strip_casts(kids[0]).get("referencedDecl", {}) if kids else {}
+            if op.get("name") == "operator()" and len(kids) >= 2:
+                obj = unwrap_forward(kids[1])
+                did = obj.get("referencedDecl", {}).get("id") if obj.get("kind") == "DeclRefExpr" else None
+                if did in self.lam:
+                    for a in kids[2:]:
+                        self.visit(a, out, parents + [n])
+                    self.inline_lambda(self.lam[did], out, parents + [n])
+                    return
+        if k == "VarDecl":
+            kids = inner(n)
+            lam = find_lambda(kids[-1]) if kids else None
+            if lam is not None:
+                self.lam[n["id"]] = lam      # auto f = [&] { ... };  inlined where f() is called
+                return
+        if k == "CallExpr":
+            kids = inner(n)
+            callee = strip_casts(kids[0]) if kids else {}
+            fname = callee.get("referencedDecl", {}).get("name") if callee.get("kind") == "DeclRefExpr" else None
+            if fname in SYNC_ALGOS and any(find_lambda(a) is not None for a in kids[1:]):
+                # a standard algorithm calls the lambda synchronously, any number of times: a loop body
+                for a in kids[1:]:
+                    lam = find_lambda(a)
+                    if lam is None:
+                        self.visit(a, out, parents + [n])
+                for a in kids[1:]:
+                    lam = find_lambda(a)
+                    if lam is not None:
+                        body = []
+                        self.inline_lambda(lam, body, parents + [n])
+                        out.append(("loop", body))
+                return
         if k == "CompoundStmt":
             mine = []
             for c in inner(n):
@@ -364,12 +487,18 @@ def sig_of(m):
     return t
 
 
+ATOMIC_FIELDS = set()   # "cls::field", filled by build_table
+
+
 def build_table(docs):
     table = []
+    ATOMIC_FIELDS.clear()
     for d in docs:
         if d.get("kind") != "ClassTemplateSpecializationDecl" or d.get("name") not in CLASSES or not inner(d):
             continue
         ci = ClassInfo(d)
+        for f in ci.atomic:
+            ATOMIC_FIELDS.add(ci.name + "::" + f)
         w = Walker(ci)
         seen = {}
         for mid in ci.public:
@@ -443,6 +572,10 @@ def lean_source(table, repo_hash, wrapper=None, lockfields=None):
     lines.append(",\n".join(rows))
     lines.append("]")
     lines.append("")
+    lines += ["/-- components whose declared type is a `std::atomic`: accesses to them are atomic operations and cannot take part in a",
+              "data race (C07 leaves them out, `Conc/Atomic.lean`); C06 keeps them (an atomic read outside the lock still breaks atomicity) -/",
+              "def atomicComps : List Nat := [%s]" % ", ".join(str(i) for i, c in enumerate(comps) if c in ATOMIC_FIELDS or c.rsplit(".", 1)[0] in ATOMIC_FIELDS),
+              ""]
     wrapper = wrapper or {"lock": [0], "unlock": [0], "underlying": "?"}
     lockfields = lockfields or {}
     lines += ["/-- cappuccino::mutex<thread_safe::yes> (lock.hpp): what `lock()` / `unlock()` do, in order: 1 = `lock()` on the wrapped",
